@@ -433,10 +433,12 @@ class C16(core.Check):
             cases.append({"kind": "bad", "curve": rng.choice(["discrete", "linear"]), "points": pts, "a": bad, "b": 0.0 if rng.random() < 0.5 else 1.0})
         # round 6b — histories query -> transform -> query on ONE curve object, every curve class, every kind of transform, in place,
         # on a copy of the queried curve, or as part of a copied operation that carries the curve on an edge
-        classes = ["circle", "circle", "line", "linear", "spline", "discrete"]
-        for i in range(max(18, n if tier == "quick" else n // 4)):
+        # quick: 12 histories (8 on circles — the class whose distance function is not convex along the parameter —, one on each
+        # other class; the three ways of transforming rotate through them); the bulk (100+) is in the thorough tier
+        classes = ["circle", "circle", "line", "circle", "circle", "linear", "circle", "circle", "spline", "circle", "circle", "discrete"]
+        for i in range(12 if tier == "quick" else max(36, n // 4)):
             which = classes[i % len(classes)]
-            c = {"kind": "qtq", "curve": which, "via": ["inplace", "copy", "opcopy"][(i // len(classes)) % 3]}
+            c = {"kind": "qtq", "curve": which, "via": ["inplace", "copy", "opcopy"][(i + i // len(classes) + i // 3) % 3]}
             if which == "circle":
                 c["origin"] = [rng.uniform(-5, 5) for _ in range(3)]
                 R = 10 ** rng.uniform(-0.5, 0.7)
